@@ -1,0 +1,36 @@
+//go:build verif
+// +build verif
+
+package downloader
+
+import (
+	"github.com/youchainhq/go-youchain/common"
+	"github.com/youchainhq/go-youchain/core/types"
+)
+
+// Verification hooks for property C19 (add-only, compiled with -tags verif only).
+//
+// The production trie sync (trieSync in triesync.go) is only reachable from inside a
+// synchronise() cycle: Deliver* refuses packets while d.cancelCh is nil, and of the blocking
+// entries only FetchVldTrie is exported. These hooks open a delivery session exactly as
+// synchronise() does and expose the unexported blocking entries unchanged.
+
+// VerifBeginSession installs a fresh cancel channel (what synchronise() does before syncWithPeer),
+// so that DeliverNodeData is accepted and Cancel() aborts a running trie sync.
+func (d *Downloader) VerifBeginSession() {
+	d.cancelLock.Lock()
+	d.cancelCh = make(chan struct{})
+	d.cancelLock.Unlock()
+}
+
+// VerifSyncState runs the production state sync (account trie + storage tries + code +
+// delegation blobs) for root and blocks until it finishes.
+func (d *Downloader) VerifSyncState(root common.Hash) error {
+	return d.syncState(root).Wait()
+}
+
+// VerifSyncTrie runs the production plain-trie sync of the given kind for root and blocks until
+// it finishes (FetchVldTrie is VerifSyncTrie(types.KindValidator, root)).
+func (d *Downloader) VerifSyncTrie(kind types.TrieKind, root common.Hash) error {
+	return d.commonSyncTrie(kind, root).Wait()
+}
